@@ -639,6 +639,7 @@ func checkTxnWrappers(p *an.Prog, r *an.Run) {
 	}
 	checkRetryClosures(p, r)
 	checkTxnOutcome(p, r, "badger", nil)
+	checkTxnClosurePure(p, r)
 }
 
 // checkTxnOutcome: a driver function that runs a transaction itself reports success only when the transaction did:
@@ -724,6 +725,62 @@ func checkTxnOutcome(p *an.Prog, r *an.Run, construct string, only func(*ssa.Fun
 	}
 	r.CallSites += sites
 	r.Check(len(bad) == 0 && sites > 0, "txn-outcome", construct, token.NoPos, "a nil error is returned only past the transaction's success edge", "%s (transaction call sites judged: %d)", strings.Join(dedup(bad), "; "), sites)
+}
+
+// checkTxnClosurePure: a transaction body changes nothing but the transaction (and variables of the method that runs
+// it): until Commit has succeeded nobody knows whether the transaction happened (a conflict, a failed later write), so a
+// field of the driver written from inside the body — a cache of decoded records, a counter — reports a state the
+// database may never reach. Judged: stores, map updates and library-object mutations through the driver value, and
+// sync.Map / atomic writes on its fields, inside every closure handed to db.Update / db.View or a transaction wrapper.
+func checkTxnClosurePure(p *an.Prog, r *an.Run) {
+	var bad []string
+	nClosures := 0
+	driverField := func(fs []ssa.Value) string {
+		for _, f := range fs {
+			if t := structOfFieldAccess(f); t != nil && t.Obj().Pkg() != nil && t.Obj().Pkg().Path() == pkgBadger {
+				if fv := an.FieldOf(f); fv != nil {
+					return t.Obj().Name() + "." + fv.Name()
+				}
+			}
+		}
+		return ""
+	}
+	seenCl := map[*ssa.Function]bool{}
+	for _, m := range badgerPkgFuncs(p) {
+		if m.Parent() != nil || p.IsTestFunc(m) {
+			continue
+		}
+		for _, reg := range txnRegions(p, m) {
+			if reg.Closure == nil || seenCl[reg.Closure] {
+				continue
+			}
+			seenCl[reg.Closure] = true
+			nClosures++
+			for _, fn := range an.WithAnon(reg.Closure) {
+				for _, w := range writesOf(fn) {
+					if name := driverField(w.Fields); name != "" {
+						bad = append(bad, an.FuncName(m)+" writes "+name+" at "+p.Pos(w.In.Pos())+" from inside a transaction body: the write stands even when the transaction is refused (conflict) or fails later")
+					}
+				}
+				for _, c := range an.Calls(fn, false) {
+					f := an.CallObj(c)
+					if f == nil || f.Pkg() == nil || len(c.Common().Args) == 0 {
+						continue
+					}
+					isSyncMapWrite := f.Pkg().Path() == "sync" && an.RecvNamed(f) != nil && an.RecvNamed(f).Obj().Name() == "Map" && f.Name() != "Load" && f.Name() != "Range"
+					isAtomicWrite := f.Pkg().Path() == "sync/atomic" && !strings.HasPrefix(f.Name(), "Load")
+					if !isSyncMapWrite && !isAtomicWrite {
+						continue
+					}
+					_, _, fields := addrChain(c.Common().Args[0])
+					if name := driverField(fields); name != "" {
+						bad = append(bad, an.FuncName(m)+" updates "+name+" ("+f.Name()+") at "+p.Pos(c.Pos())+" from inside a transaction body: the update stands even when the transaction is refused (conflict) or fails later")
+					}
+				}
+			}
+		}
+	}
+	r.Check(len(bad) == 0 && nClosures >= 10, "one-txn", "closure-pure:badger", token.NoPos, "no transaction body writes the driver's own state", "%s (transaction bodies judged: %d)", strings.Join(dedup(bad), "; "), nClosures)
 }
 
 // checkRetryClosures: a transaction wrapper that may run its function more than once (a conflict retry) needs that
@@ -916,6 +973,10 @@ func checkKeyOperandTypes(p *an.Prog, r *an.Run) {
 					}
 					f := an.CallObj(c)
 					if f == nil || f.Pkg() == nil {
+						continue
+					}
+					if an.IsMethod(f, "sync", "Pool", "Get") {
+						bad = append(bad, "the key used at "+p.Pos(o.In.Pos())+" ("+an.FuncName(m)+") lives in a buffer taken from a sync.Pool ("+p.Pos(c.Pos())+"): whatever the previous user left behind the id is part of the key, so one identity is looked up under different keys from call to call")
 						continue
 					}
 					switch f.Pkg().Path() {
